@@ -91,6 +91,22 @@ class SymNS:
                 return GTensor(t.axes, X.rename_apart(a[2][0]), t.dtype)
         return t
 
+    def cleared(self, got, want):
+        """(got*M, want*M) with M the product of every sub-expression that occurs with a negative power in got or want
+        (clearing denominators: valid under the obligation's side condition that those quantities are non-zero)."""
+        got, want = G.lift(got), G.lift(want)
+        need = {}
+        for t in (got, want):
+            for term in t.body.terms:
+                for s_ in X.simplify_term(term):
+                    for a, e in s_.facs:
+                        if a[0] == "P" and e < 0:
+                            need[a] = max(need.get(a, 0), -e)
+        if not need:
+            return got, want
+        M = X.Expr([X.Term(1, (), list(need.items()))])
+        return GTensor(got.axes, got.body * M, got.dtype), GTensor(want.axes, want.body * M, want.dtype)
+
     def resolve_abs(self, t, candidates):
         """Replace abs(A) by A for every abs atom whose argument is proved (canonical form) equal to one of the candidate
         tensors, each of which is a sum of squares by construction (built with sumsq)."""
@@ -241,6 +257,9 @@ class NumNS:
 
     def resolve_abs(self, t, candidates):
         return t
+
+    def cleared(self, got, want):
+        return got, want
 
     def sumsq(self, t):
         return np.sum(np.abs(t) ** 2)
